@@ -135,7 +135,7 @@ def build_harness(name, extra_sources=(), link_lib=True, kind="san", defines=())
     """harness/<name>.cpp (+ extra sources) -> executable, cached by content"""
     flags = SAN_FLAGS if kind == "san" else "-O1 -g"
     cflags, libs = qt_flags()
-    common = glob.glob(os.path.join(HARNESS, "common", "*"))
+    common = glob.glob(os.path.join(HARNESS, "common", "*.h"))
     headers = repo_files({".h"})
     lib, libhash = build_lib(kind) if link_lib else (None, "nolib")
     objs = []
